@@ -200,6 +200,36 @@ def check_scenario(cfg: Dict, model_out: Optional[Tuple[str, str]], twice: bool 
     return fails, inv
 
 
+def has_red_application(cfg: Dict) -> bool:
+    return any(a.get("type") in R.RED_APPLICATIONS for n in (cfg.get("simulation", {}).get("network", {}).get("nodes") or [])
+               for a in (n.get("applications") or []))
+
+
+def check_load_rng_independent(cfg: Dict, seeds=(11, 12, 13, 14, 15, 16)) -> List[dict]:
+    """"each in its declared initial state WHEN THE SCENARIO IS LOADED": the state of every piece of software right after loading is
+    a function of the file, not of the random generators - the same file loaded under different generator states (Python's and
+    numpy's) gives the same software states. (Agents may draw their schedule; the SIMULATION may not be built by a draw.)"""
+    import random as _random
+
+    import numpy as _np
+    seen: Dict[str, Dict[str, str]] = {}
+    for sd in seeds:
+        _random.seed(sd)
+        _np.random.seed(sd)
+        game, f = _load(cfg)
+        if f:
+            return []
+        seen[sd] = R.software_states(game)
+    first = seen[seeds[0]]
+    differing = sorted({k for sd in seeds[1:] for k in first if seen[sd].get(k) != first[k]})
+    if not differing:
+        return []
+    k = differing[0]
+    other = next(sd for sd in seeds[1:] if seen[sd].get(k) != first[k])
+    return [{"kind": "load-depends-on-random-generator", "item": ",".join(sorted({d.split(":")[1] for d in differing})),
+             "software": differing[:4], "seeds": [seeds[0], other], "states": [first[k][:300], seen[other].get(k, "")[:300]]}]
+
+
 STATE_TOKENS = re.compile(r" (wired|en|st|h|flags)=\S+|^(node \S+ \S+) \S+")
 
 
@@ -722,6 +752,9 @@ def run(ctx: Ctx):
         if ctx.thorough or srng.chance(1, 3):
             cases.append((nm, cfg, 0))
             meta_of[nm] = meta
+    for nm, cfg, meta in F.load_state_cases():
+        cases.append((nm, cfg, 0))
+        meta_of[nm] = meta
     fam = F.two_source_grid()
     sf = F.schema_falsy_cases() + F.node_state_cases() + F.agent_settings_cases(ctx.rng.fork("falsy-agents"))
     if not ctx.thorough:   # quick: the two-source grid in full, the schema-driven family thinned (every option still appears over seeds)
@@ -754,6 +787,7 @@ def run(ctx: Ctx):
     # implementation side
     agree = modelled = 0
     env_budget = ctx.scale(6, 50)
+    rng_budget = ctx.scale(6, 60)
     f31_total = 0
     for idx, (name, cfg, steps) in enumerate(cases):
         kind = name.split(":")[0]
@@ -764,9 +798,15 @@ def run(ctx: Ctx):
             mo = (out[st + ln - 3], out[st + ln - 2], out[st + ln - 1])
             modelled += 1
             ctx.cov["traces_validated_against_impl"] += 1
-        family = kind in ("two-source", "falsy", "counter-model", "kw-counter-model", "acl-spelling")
+        family = kind in ("two-source", "falsy", "counter-model", "kw-counter-model", "acl-spelling", "load-state")
         small = (kind in ("gen", "matrix", "corpus") or not name.startswith(("shipped:uc7", "scheduled:uc7"))) and not family
         fails, inv = check_scenario(cfg, mo, twice=small or (ctx.thorough and not family), ctx=ctx)
+        if inv is not None and has_red_application(cfg) and (kind == "load-state" or (rng_budget > 0 and kind in ("gen", "matrix", "corpus"))):
+            if kind != "load-state":
+                rng_budget -= 1
+            fails += check_load_rng_independent(cfg)
+            ctx.count("load-under-six-generator-states")
+            ctx.cov["evaluations"] += 6
         if family:
             ctx.cov["evaluations"] += 1
             m = meta_of.get(name, {})
